@@ -42,6 +42,7 @@ func run(c *harness.Case) {
 	size := calcgen.Size{Routes: c.Index%3 != 0, Extra: c.Thorough() && c.Index%2 == 0}
 	sc := calcgen.NewScenario(c.R, calcgen.ScenarioOptions{Size: size, MinSteps: 30, MaxSteps: c.Pick(120, 200)})
 	if err := sc.U.SelfCheck(); err != nil {
+		calcgen.Debugf("case %d: %v", c.Index, err)
 		c.Inconclusive("generator-tag-mismatch")
 		c.Count("generator_tag_mismatch", 1)
 		return
